@@ -328,6 +328,36 @@ theorem Sys.ctx_out (s : Sys H K B V) (op : Op H K B V) {c : List (List (K × En
   | bcommit _ => simp [Sys.ctx] at h
   | srem _ => simp [Sys.ctx] at h
 
+/-- executable check of `InOrder` -/
+def inOrderB (T : Tree K B V) : Bool :=
+  T.all (fun x => match T.find x.prev with
+    | some _ => decide (T.ct x.prev < T.ct x.hash)
+    | none => true)
+
+theorem Tree.find_mem {T : Tree K B V} {b : B} {x : Blk K B V} (h : T.find b = some x) : x ∈ T ∧ x.hash = b := by
+  unfold Tree.find at h
+  exact ⟨List.mem_of_find?_eq_some h, by simpa using List.find?_some h⟩
+
+theorem InOrder.of_b {T : Tree K B V} (h : inOrderB T = true) : InOrder T := by
+  intro b x xp hb hp
+  obtain ⟨hm, hh⟩ := Tree.find_mem hb
+  unfold inOrderB at h
+  have := List.all_eq_true.mp h x hm
+  simp only [hp, decide_eq_true_eq] at this
+  rw [hh] at this; exact this
+
+def inOrderRunB : Sys H K B V → Tree K B V → List (Op H K B V) → Bool
+  | _, T, [] => inOrderB T
+  | s, T, op :: ops => inOrderB T && inOrderRunB (s.step op).1 (s.treeStep T op) ops
+
+theorem InOrderRun.of_b {s : Sys H K B V} {T : Tree K B V} {ops : List (Op H K B V)}
+    (h : inOrderRunB s T ops = true) : InOrderRun s T ops := by
+  induction ops generalizing s T with
+  | nil => exact InOrder.of_b h
+  | cons op ops ih =>
+    simp only [inOrderRunB, Bool.and_eq_true] at h
+    exact ⟨InOrder.of_b h.1, ih h.2⟩
+
 /-- an answer in the pruned tree is an answer in the real tree -/
 theorem Answer.of_prune {dt : K → Nat} {T : Tree K B V} (hO : InOrder T) {pend : List (List (K × Entry V))}
     {b : B} {k : K} {e : Entry V} (h : Answer (prune dt T) pend b k e) : Answer T pend b k e := by
